@@ -68,7 +68,7 @@ def getMeta (f : Flags) : List String :=
 
 def regIsPredicate : LTree → Bool
   | .node "reg" (.tok "REG_TYPE" t :: _) => t == "P"
-  | .node "explicit_reg" (.tok _ name :: _) => name.startsWith "P"
+  | .node "explicit_reg" (.tok _ name :: _) => name.toList.head? == some 'P'
   | _ => false
 
 /-- `pred_num` as `assignment_expr` computes it: the first digit of an explicit name whose second
